@@ -80,6 +80,28 @@ def multi_linear_shape(rng):
     return shape
 
 
+def mutual_linear_shape(rng):
+    """two mutually AND self-recursive nonterminals over a domain of 2..3 values with sparse binary weights:
+    S -> c(v) X(v);  X(v) -> f(v) | p(v,w) X(w) | q(v,w) Y(w);  Y(v) -> g(v) | r(v,w) Y(w) | s(v,w) X(w).
+    The block elimination of `linear` / `newton` then solves with a MATRIX right-hand side (the block (Y, X) when X is eliminated
+    first) whose rows are partly zero"""
+    d = rng.choice([2, 2, 3])
+    terms = [[0], [0], [0], [0, 0], [0, 0], [0, 0], [0, 0]]
+    nts = [[], [0], [0]]
+    def rec(lhs, t, child):
+        return dict(lhs=lhs, nodes=[0, 0], ext=[0], edges=[['t', t, [0, 1]], ['n', child, [1]]])
+    rules = [dict(lhs=0, nodes=[0], ext=[], edges=[['t', 0, [0]], ['n', 1, [0]]]),
+             dict(lhs=1, nodes=[0], ext=[0], edges=[['t', 1, [0]]]), dict(lhs=2, nodes=[0], ext=[0], edges=[['t', 2, [0]]]),
+             rec(1, 3, 1), rec(1, 4, 2), rec(2, 5, 2), rec(2, 6, 1)]
+    rng.shuffle(rules)
+    w = {i: [rng.choice([1.0, 2.0, 0.5, 0.25]) for _ in range(d)] for i in range(3)}
+    for i in range(3, 7):
+        w[i] = [rng.choice([0.0, 0.0, 0.125, 0.0625, 0.03125]) for _ in range(d * d)]
+    shape = dict(nls=[d], terms=terms, nts=nts, start=0, rules=rules, weights=w)
+    shape['vweights'] = {i: [rng.choice([-1.0, -2.0, -0.5, -math.inf]) if i >= 3 else rng.choice([0.0, -1.0]) for _ in ws] for i, ws in w.items()}
+    return shape
+
+
 def same_reply(a, b, rtol):
     """replies of two interpreter modes: same keys, same error kind, numbers equal within floating-point
     tolerance (the reduction order of the BLAS kernels may differ between processes by an ulp)"""
@@ -175,6 +197,10 @@ def run(ctx):
                 recursive = True
                 shape = multi_linear_shape(ctx.rng)
                 ctx.count('multi-rule-linear-family')
+            if done % 8 == 3:
+                recursive = True
+                shape = mutual_linear_shape(ctx.rng)
+                ctx.count('mutual-linear-family')
             rec, lin = sccs_and_linearity(shape)
             if recursive and not rec:
                 continue
